@@ -71,8 +71,8 @@ std::unique_ptr<custom_recursive_mutex> create_custom_recursive_mutex() { return
 
 // ------------------------------------------------------------------------------------------
 // program description
-enum TOp { T_CALL = 0, T_CREATE, T_RELEASE, T_QSAT, T_QSATU, T_QCOMP, T_WATCH, T_KILL, T_UNWATCH, T_MOCKLIFE, T_SREL, T_SKILL, NTOP };
-static const char* top_name[] = {"call", "create", "release", "is_satisfied", "is_saturated", "is_completed", "watch", "kill", "unwatch", "mocklife", "srelease", "skill"};
+enum TOp { T_CALL = 0, T_CREATE, T_RELEASE, T_QSAT, T_QSATU, T_QCOMP, T_WATCH, T_KILL, T_UNWATCH, T_MOCKLIFE, T_SREL, T_SKILL, T_SWATCH, NTOP };
+static const char* top_name[] = {"call", "create", "release", "is_satisfied", "is_saturated", "is_completed", "watch", "kill", "unwatch", "mocklife", "srelease", "skill", "swatch"};
 // create forms (compile time): how sequences and bounds are spelled
 enum Form { FM_PLAIN = 0, FM_SEQ_RT, FM_RT_SEQ, FM_SEQ2_RT, FM_SEQ_TIMES2, FM_SEQ_ONLY, NFORM };
 struct Op {
@@ -168,8 +168,8 @@ struct World {
   // shared deathwatched objects: created (with two requirements each) before the workers start; object i is destroyed
   // by thread i % n, its requirement j is released by thread (i + j + 1) % n - so a release can overlap the death
   trompeloeil::deathwatched<Dw>* sdw[2] = {};
-  std::unique_ptr<trompeloeil::expectation> smon[2][2];
-  int smon_id[2][2] = {{0, 0}, {0, 0}};
+  std::unique_ptr<trompeloeil::expectation> smon[2][3];   // [i][2]: registered later, by the thread that owns the object
+  int smon_id[2][3] = {{0, 0, 0}, {0, 0, 0}};
   int nthreads = 1;
 };
 static World* Wd = nullptr;
@@ -482,12 +482,26 @@ static void run_op(int tid, int opi, const Op& o, std::vector<int>& slot_id, int
         break;
       }
       case T_SREL: {
-        int i = o.a % 2, j = o.b % 2;
-        if (tid >= 0 && tid != (i + j + 1) % Wd->nthreads) { res = "skip"; break; }
+        int i = o.a % 2, j = o.b % 3;
+        // requirement 2 belongs to the thread that owns the object (it registers it, see T_SWATCH), 0 and 1 to other threads
+        if (tid >= 0 && tid != (j == 2 ? i : i + j + 1) % Wd->nthreads) { res = "skip"; break; }
         if (!Wd->smon[i][j]) { res = "skip"; break; }
         ev(E_MONDTOR, Wd->smon_id[i][j]);
         Wd->smon[i][j].reset();
         res = "unwatched";
+        break;
+      }
+      case T_SWATCH: {
+        // the owner of a shared object registers one more requirement on it while other threads release theirs
+        int i = o.a % 2;
+        if (tid >= 0 && tid != i % Wd->nthreads) { res = "skip"; break; }
+        if (!Wd->sdw[i] || Wd->smon[i][2]) { res = "skip"; break; }
+        int id = id_base + opi + 1;
+        ev(E_MONLINK, id, MAXTH + 1 + i);
+        auto& obj = *Wd->sdw[i];
+        Wd->smon[i][2] = NAMED_REQUIRE_DESTRUCTION(obj);
+        Wd->smon_id[i][2] = id;
+        res = "watched";
         break;
       }
       case T_SKILL: {
@@ -567,6 +581,7 @@ static std::string expected_observation(const OpRec& r, const std::vector<std::s
     case T_RELEASE: res = r.events.empty() ? "skip" : "released"; if (!r.events.empty() && !evres[0].empty()) add_reports(evres[0]); break;
     case T_QSAT: case T_QSATU: res = r.events.empty() ? "skip" : evres[0]; break;
     case T_QCOMP: res = evres[0]; break;
+    case T_SWATCH:
     case T_WATCH: res = r.events.empty() ? "skip" : "watched"; break;
     case T_SKILL:
     case T_KILL: res = r.events.empty() ? "skip" : "killed"; if (!r.events.empty() && !evres[0].empty()) add_reports(evres[0]); break;
@@ -805,7 +820,7 @@ static RunResult run_program(const Program& p, bool sched_mode) {
   {
     int opi = 200;
     for (int i = 0; i < 2; ++i) {
-      for (int j = 0; j < 2; ++j) if (w.smon[i][j]) { OpRec r; run_op(-1, opi++, Op{T_SREL, i, j}, slot_id, mon_ids[MAXTH], own_ids[MAXTH], r, 0); r.tid = -1; all.push_back(r); }
+      for (int j = 0; j < 3; ++j) if (w.smon[i][j]) { OpRec r; run_op(-1, opi++, Op{T_SREL, i, j}, slot_id, mon_ids[MAXTH], own_ids[MAXTH], r, 0); r.tid = -1; all.push_back(r); }
       if (w.sdw[i]) { OpRec r; run_op(-1, opi++, Op{T_SKILL, i}, slot_id, mon_ids[MAXTH], own_ids[MAXTH], r, 0); r.tid = -1; all.push_back(r); }
     }
   }
@@ -895,7 +910,8 @@ static rc::Gen<Op> gen_op(bool prologue) {
     else if (k < 94) o.kind = T_UNWATCH;
     else if (k < 96) o.kind = T_MOCKLIFE;
     else if (k < 98) o.kind = T_SREL;
-    else o.kind = T_SKILL;
+    else if (k < 99) o.kind = T_SKILL;
+    else o.kind = T_SWATCH;
     auto small = [](int n) { return *rc::gen::resize(100, rc::gen::inRange(0, n)); };
     switch (o.kind) {
       case T_CALL: o.a = small(4) ? 0 : 1; o.b = small(4) ? 0 : 1; o.c = small(3); break;
@@ -904,8 +920,8 @@ static rc::Gen<Op> gen_op(bool prologue) {
       case T_QCOMP: o.a = small(3) ? 0 : 1; break;
       case T_WATCH: o.a = small(2); o.b = small(3) ? 0 : 1; break;
       case T_MOCKLIFE: o.a = small(8); o.b = small(2); break;
-      case T_SREL: o.a = small(2); o.b = small(2); break;
-      case T_SKILL: o.a = small(2); break;
+      case T_SREL: o.a = small(2); o.b = small(3); break;
+      case T_SKILL: case T_SWATCH: o.a = small(2); break;
       default: break;
     }
     return o;
@@ -938,6 +954,11 @@ static rc::Gen<Program> gen_program(int max_threads, int max_ops) {
       };
       put(i % p.nthreads, Op{T_SKILL, i});
       for (int j = 0; j < 2; ++j) put((i + j + 1) % p.nthreads, Op{T_SREL, i, j});
+      // ... and in half of those the owner also registers a third requirement (and may release it) meanwhile
+      if (*rc::gen::resize(100, rc::gen::inRange(0, 2)) == 1) {
+        put(i % p.nthreads, Op{T_SWATCH, i});
+        if (*rc::gen::resize(100, rc::gen::inRange(0, 2)) == 1) put(i % p.nthreads, Op{T_SREL, i, 2});
+      }
     }
     p.schedule = *rc::gen::container<std::vector<int>>(rc::gen::resize(100, rc::gen::inRange(0, 8)));
     if (p.schedule.size() > 64) p.schedule.resize(64);
